@@ -108,6 +108,13 @@ theorem extend_reserve_eq (a b : RawView) : Gen.ListGuards.extend_reserve a b = 
 theorem extend_len_add_eq (a b : RawView) : Gen.ListGuards.extend_len_add a b = b.len := by
   unfold Gen.ListGuards.extend_len_add; omega
 
+theorem contains_loop_count_eq (l : RawList) : Gen.ListGuards.contains_loop_count l.view = l.len := by
+  unfold Gen.ListGuards.contains_loop_count RawList.view; first | rfl | omega
+theorem index_loop_count_eq (l : RawList) : Gen.ListGuards.index_loop_count l.view = l.len := by
+  unfold Gen.ListGuards.index_loop_count RawList.view; first | rfl | omega
+theorem eq_loop_count_eq (a b : RawList) (h : a.len = b.len) : Gen.ListGuards.eq_loop_count a.view b.view = a.len := by
+  unfold Gen.ListGuards.eq_loop_count RawList.view; first | rfl | (simp only []; omega)
+
 theorem extend_clone_count_eq (a b : RawList) : Gen.ListGuards.extend_clone_count a.view b.view = b.len := by
   unfold Gen.ListGuards.extend_clone_count RawList.view; first | rfl | omega
 theorem drop_amount_eq (l : RawList) :
